@@ -153,6 +153,8 @@ theorem applyRes_queue (cfg : Cfg) (pol : Policy) (step : Nat) (tickEv : Ev) (dc
   | failed exc failedAt =>
     simp only [applyRes]
     split
+    · rfl
+    split
     · simp
     all_goals
       split
